@@ -15,6 +15,7 @@ LEVEL_NOTE = "Trusted: ordering comparator is the real cmp (C07); NaN keys are C
 RULE = ('random tables (0-10 rows, 2-5 columns, heavy key duplication, mixed-type key columns None/int/float/str/datetime, NaN only in non-key cells), any '
         'non-empty proper subset of columns as keys; pivot with str/int y labels, z never None, agg in {None, first, last, len}; '
         'non-trivial = >=1 key with >=2 rows and >=2 distinct keys; distinct = canonical hash')
+RULE_ALSO = '; added by the coverage audit and round 8: pivot of tables without rows, tz-aware key columns'
 ASSUMPTIONS = ['keys are distinct under == on tuples (1 and 1.0 are one key, as the library and Python do)', 'NaN keys belong to C02/C07 and are not generated here',
                'y labels do not collide with column names or with each other after int->str rendering', 'ordering comparator is the real cmp (laws monitored by C07)']
 
